@@ -2,7 +2,7 @@
 Tie between the body of `thresholding.py: rc` (regenerated on every run into `Generated/PyBodies.lean`, its two `while`
 loops under the reviewed fuel `N = hist.size`) and `C16.rcImg`, the Riddler–Calvard model the driver runs.
 -/
-import Mahotas.Generated.PyBodies
+import Mahotas.Generated.PyBodiesC16
 import Mahotas.Proofs.C16Rc
 import Mahotas.Proofs.C16Zeros
 import Mathlib.Algebra.BigOperators.Group.List.Basic
